@@ -109,13 +109,19 @@ Print Assumptions listed_after_its_users.
 
 (* ------------------------------------------------------------------ cycles are reported *)
 
-(* DESIGN statement: not acyclic g -> check_cycles g = Err.  Proved in the contrapositive form
-   (constructive, and independent of the correctness of Tarjan on cyclic graphs): whenever
+(* Independent of the correctness of Tarjan on cyclic graphs: whenever
    topologicalSort(checkCycles=True) returns normally the graph has no cycle.  A cycle therefore
    never passes: the call ends in RuntimeError ([Err Refused] from the component test or
    [Err Crash] from the left-over test of the layering loop). *)
-Theorem cycle_reported g0 NL : check_cycles g0 = Ok NL -> acyclic (prepare g0).
+Theorem cycle_check_sound g0 NL : check_cycles g0 = Ok NL -> acyclic (prepare g0).
 Proof. exact (check_cycles_passes_acyclic g0 NL). Qed.
+Print Assumptions cycle_check_sound.
+
+(* ... and the error is a python exception, not the model running out of fuel: Tarjan's fuel (number of
+   nodes + 1) and the layering loop's fuel (number of components + 1) are proved sufficient *)
+Theorem cycle_reported g0 :
+  ~ acyclic (prepare g0) -> exists e, check_cycles g0 = Err e /\ e <> OutOfFuel.
+Proof. exact (cycle_is_reported g0). Qed.
 Print Assumptions cycle_reported.
 
 (* ------------------------------------------------------------------ uses *)
